@@ -19,7 +19,7 @@ GROUP = dict(
         _c.PURL_SHAPE,
         _c.contract_only('lib_lower', 'U-lower.lowercase_in_place'),
         dict(id='U-pypi.fix_pypi_name', file='purl/src/package_type.rs', fn='fix_pypi_name',
-             properties=['C08', 'C10', 'C09', 'C01', 'C02'], ret=None,
+             properties=['C08', 'C10', 'C09', 'C01', 'C02', 'C18'], ret=None,
              contract='    ensures final(name)@ == pypi_norm(old(name)@)',
              hoist=[('R6', r'const (\w+): &\[char\] = &\[([^\]]*)\];',
                      r"exec const \1: &'static [char] ensures \1@ =~= seq![\2] { &[\2] }")],
@@ -106,7 +106,7 @@ GROUP = dict(
              wrap='impl PurlShape for PackageType', vis='', properties=['C15', 'C03', 'C08'],
              rw=[('R3', r'self\.name\(\)\.into\(\)', 'x_cow_from_str(self.name())', 1)]),
         dict(id='U-ptfin.finish', file='purl/src/package_type.rs', fn='finish', ctx=r'impl PurlShape for PackageType',
-             wrap='impl PurlShape for PackageType', vis='', properties=['C08', 'C05', 'C09', 'C10'],
+             wrap='impl PurlShape for PackageType', vis='', properties=['C08', 'C05', 'C09', 'C10', 'C18', 'C01'],
              sig_rw=[('R0', r'crate::PurlParts', 'PurlParts', 1)],
              rw=[('R3', r"parts\.namespace\.trim_matches\('/'\)", "x_trim_matches(parts.namespace.as_str(), '/')", '*')],
              begin='        proof { lemma_trim_empty_iff_all(parts.namespace@, \'/\'); }',
